@@ -10,7 +10,7 @@ import vlib
 
 TARGETS = ["Base/Num.vo", "Base/Corr.vo", "C13/Model.vo", "C13/ModelKernels.vo", "C13/Spec.vo", "C13/SpecTest.vo",
            "C13/Corr.vo", "C13/Anchors.vo", "C13/ProofsGlue.vo", "C13/ProofsDrivers.vo", "C13/ProofsTables.vo",
-           "C13/ProofsAnchors.vo", "C13/Props.vo"]
+           "C13/ProofsAnchors.vo", "C13/Spec2.vo", "C13/ProofsAnchors2.vo", "C13/Anchors2.vo", "C13/Props.vo"]
 PROPS = ["C13/Props.v"]
 PARTIAL = ("No theorem about the accuracy of the Boost-ported kernels (gamma_incomplete_imp, igamma_temme_large, bessel_ik, "
            "temme_ik, CF1/CF2, digamma/trigamma/polygamma/zeta rational approximations) over all float64 arguments is attempted. "
@@ -18,13 +18,77 @@ PARTIAL = ("No theorem about the accuracy of the Boost-ported kernels (gamma_inc
            "value, SumSeries = init + partial sum at the first index where the coded test fires or the term limit, "
            "EvalContinuedFraction = a0 / convergent at that index (when no `tiny` substitution fires), Mlgamma/Mgamma relative to "
            "lnGamma/Gamma; exhaustively: Factorial table = n! and exactly representable, BernoulliNumber(n) = recurrence value for "
-           "n <= 64 only (_partial). Closed forms (Gamma, psi, psi_1, psi_n differences, Q(a,x) at integer/half-integer a, I_{+-(n+1/2)}) "
-           "are proved from defining relations taken as hypotheses (functional equation + base value); only the incomplete-gamma "
-           "hypotheses are shown satisfiable by an Example. Kernels are validated against Coq-certified enclosures of these closed "
-           "forms at anchors only; accuracy between anchors is not proved. Branches no certified anchor reaches are listed under "
-           "uncovered_branches (measured with go build -cover). Zeta has no certified anchors (sweep only). The step from R to "
-           "binary64 in the glue is bounded per sampled case only (bit-exact replay for + - * /, certified enclosure otherwise). "
-           "The dense relation sweep is supporting differential testing of the code against itself, not the decision.")
+           "n <= 64 only (_partial). Closed forms (Gamma, psi, psi_1, psi_n differences, Q(a,x) at integer/half-integer a incl. the "
+           "linear-size nested form used for a up to 500, I_{+-(n+1/2)} incl. the exact rational-argument polynomial form used for "
+           "n up to 300, zeta(2k) from zeta(-n) and the functional equation) are proved from defining relations taken as hypotheses "
+           "(functional equation + base value); only the incomplete-gamma hypotheses are shown satisfiable by an Example. Kernels are "
+           "validated against Coq-certified enclosures of these closed forms at anchors only; accuracy between anchors is not proved. "
+           "Round 2: anchors sit ON every method-selection boundary for which a closed form exists (argument at the boundary and "
+           "+-1 ulp); the boundary list is derived from the source by a go/ast pass and every comparison no certified anchor "
+           "evaluates on both outcomes is listed under boundaries.uncovered / one_side (not claimed). Boundaries in non-integer, "
+           "non-half-integer a (a = 20 +- ulp, a = 200 +- ulp, -0.4/ln x < a, 0.75 x < a, method 3 tgamma_small_upper_part) have no "
+           "closed form here and are only covered by the supporting continuity / monotonicity check across the boundary (no jump "
+           "beyond density*ulp + rounding noise), which is differential evidence, not a proof. Zeta is anchored at even positive "
+           "and non-positive integers only (where the code itself evaluates the closed form); odd integers and non-integers: sweep "
+           "only. Branches no certified anchor reaches are listed under uncovered_branches (measured with go build -cover). The step "
+           "from R to binary64 in the glue is bounded per sampled case only (bit-exact replay for + - * /, certified enclosure "
+           "otherwise). The dense relation sweep is supporting differential testing of the code against itself, not the decision.")
+BOUNDARIES_EXPECTED = "corpus/C13/boundaries_expected.json"
+
+
+def boundary_report(ctx, binary, anchors, okset):
+    """go/ast pass over vlib.REPO/special (harness --extra boundaries=...) matched with the comparison tags of the certified anchors"""
+    rc, out = vlib.sh([binary, "--extra", "boundaries=" + vlib.REPO, "--out", ctx.dir], timeout=120, env=vlib.go_env())
+    bp = os.path.join(ctx.dir, "boundaries.json")
+    if rc != 0 or not os.path.exists(bp):
+        ctx.notes.append("boundary pass failed: " + out[-300:])
+        return
+    bs = json.load(open(bp))
+    stat = {}
+    for a in anchors:
+        if a["id"] not in okset:
+            continue
+        for p in a.get("preds") or []:
+            st = stat.setdefault(p["k"], {"adj_t": 0, "adj_f": 0, "t": 0, "f": 0})
+            st["t" if p["t"] else "f"] += 1
+            if p["adj"]:
+                st["adj_t" if p["t"] else "adj_f"] += 1
+    rows, seen = [], set()
+    cls_count = {"both_sides_adjacent": 0, "at_boundary_and_other_side": 0, "both_outcomes_not_adjacent": 0, "one_side": 0, "uncovered": 0}
+    for b in bs:
+        if b["key"] in seen:
+            continue
+        seen.add(b["key"])
+        st = stat.get(b["key"])
+        if not st:
+            c = "uncovered"
+        elif st["adj_t"] and st["adj_f"]:
+            c = "both_sides_adjacent"
+        elif (st["adj_t"] or st["adj_f"]) and st["t"] and st["f"]:
+            c = "at_boundary_and_other_side"
+        elif st["t"] and st["f"]:
+            c = "both_outcomes_not_adjacent"
+        else:
+            c = "one_side"
+        cls_count[c] += 1
+        rows.append({"site": "%s:%d" % (b["file"], b["line"]), "key": b["key"], "class": c, "anchors": st})
+    exp_path = os.path.join(vlib.ROOT, BOUNDARIES_EXPECTED)
+    drift = None
+    if os.path.exists(exp_path):
+        exp = set(json.load(open(exp_path)))
+        drift = {"new_or_changed_in_source": sorted(seen - exp), "no_longer_in_source": sorted(exp - seen)}
+        if drift["new_or_changed_in_source"] or drift["no_longer_in_source"]:
+            ctx.notes.append("method-selection comparisons of the source differ from corpus/C13/boundaries_expected.json: %s" % json.dumps(drift))
+    ctx.cov["boundaries"] = {"how": "go/ast pass (harness/c13/astpass.go) over the anchored functions: comparisons of float parameters / locals derived "
+                                    "from them; matched with the comparisons evaluated on the path of each CERTIFIED anchor (replica of the control flow in "
+                                    "harness/c13/boundary.go; adjacent = operands within 4 ulp or one grid step)",
+                             "distinct": len(seen), "classes": cls_count,
+                             "uncovered": [r["key"] for r in rows if r["class"] == "uncovered"],
+                             "one_side": [r["key"] for r in rows if r["class"] == "one_side"],
+                             "drift_vs_expected": drift, "list": rows}
+    ctx.log("boundaries: %d distinct comparisons; %s" % (len(seen), ", ".join("%s=%d" % kv for kv in cls_count.items())))
+
+
 COVER_FUNCS = {"gamma.go": ["gamma_incomplete_imp", "igamma_temme_large", "tgamma_small_upper_part", "regularised_gamma_prefix",
                             "full_igamma_prefix", "finite_gamma_q", "finite_half_gamma_q", "gamma_p_derivative_imp"],
                "bessel.go": ["bessel_ik", "bessel_i_imp", "temme_ik", "CF1_ik", "CF2_ik", "bessel_i_small_z_series", "asymptotic_bessel_i_large_x"],
@@ -213,6 +277,9 @@ def run(ctx):
         if r["rc"] != 0:
             ctx.violation({"obligation": "anchor shard " + os.path.basename(r["path"]), "coqc_error": r["log"]}, False,
                           "anchor shard did not evaluate (coqc rc=%s)" % r["rc"])
+    boundary_report(ctx, binary, anchors, okset)
+    ctx.cov["anchors"]["round2_boundary_and_large_order"] = {"total": sum(1 for a in anchors if a.get("bnd")),
+                                                            "certified": sum(1 for a in anchors if a.get("bnd") and a["id"] in okset)}
     # ---- sweep + corpus (supporting; feeds the hunt)
     sweep = json.load(open(os.path.join(ctx.dir, "sweep.json")))
     corp = json.load(open(os.path.join(ctx.dir, "corpus.json"))) if os.path.exists(os.path.join(ctx.dir, "corpus.json")) else {"entries": 0, "failures": []}
@@ -227,8 +294,9 @@ def run(ctx):
             ctx.cov["branch_coverage"] = {"blocks": cv["blocks"], "covered_by_anchor_arguments": cv["covered"],
                                           "how": "go build -cover block counters of the anchored functions on a run that evaluates the anchor arguments only (includes skipped/uncertified anchors)"}
             ctx.cov["uncovered_branches"] = cv["uncovered"] + [
-                "(by reading) gamma_incomplete_imp with a >= 170 non-normalised and Temme with a > 200: reached by the sweep only, "
-                "no certified anchor (closed forms too expensive for Coq-Interval)"]
+                "(by reading) gamma_incomplete_imp method 3 (tgamma_small_upper_part: a < ~0.8 and not a half-integer) has no closed form "
+                "here: sweep + continuity check only; bessel_ik asymptotic_bessel_i_large_x is unreachable for finite binary64 results "
+                "(needs x > 4900 where I_v overflows)"]
             ctx.log("block coverage of the anchored functions by the anchor arguments: %d/%d" % (cv["covered"], cv["blocks"]))
     shutil.rmtree(covdir, ignore_errors=True)
     # ---- hunt / verdict
@@ -236,16 +304,21 @@ def run(ctx):
     if not broken:
         return
     h = hunt(ctx, binary, failing, sfail)
-    results = (h.get("results") or []) + (corp["failures"] or [])
+    hres = h.get("results") or []
+    results = hres + (corp["failures"] or [])
     new = []
-    for e in results:
+    explained = set()          # failing anchors whose minimised input reproduces a known finding
+    for k, e in enumerate(results):
         if not e.get("fails"):
             continue
         kf = known(e)
         if kf:
             ctx.known_finding(kf["id"], kf["what"])
+            if k < min(len(failing), 40):
+                explained.add(failing[k]["id"])
         else:
             new.append(e)
+    unexplained = [a for a in failing if a["id"] not in explained] + undecided
     seen = set()
     for e in new:
         key = (e.get("fn") or e.get("kind"), e.get("label"))
@@ -265,11 +338,11 @@ def run(ctx):
                       % (len(bad_cases), bad_cases[0].get("kind")))
     elif bad_cases:
         ctx.notes.append("exact correspondence mismatches: %d (first kind %s)" % (len(bad_cases), bad_cases[0].get("kind")))
-    if (failing or undecided) and not new and not ctx.known_hit:
-        a = (failing or undecided)[0]
+    if unexplained and not new:
+        a = unexplained[0]
         ctx.violation({"anchor": a, "obligation": "certified anchor"}, False,
                       "%d anchor(s) not certified within tolerance (first: %s), the float64 oracle does not confirm a failing input"
-                      % (len(failing) + len(undecided), a["desc"]))
+                      % (len(unexplained), a["desc"]))
 
 
 def replay(ctx, path):
